@@ -18,7 +18,7 @@ for pid in ids:
             "replay_cmd_template": "./check %s --replay {path}" % pid,
             "engine": "lymir+lysyn+lyverif",
             "level_claimed": {"category": "other", "text": m["text"], "design_ref": m["design_ref"]},
-            "level_note": m["note"],
+            "level_note": m["note"] + " Tiers: quick = the property's rules on the default build (plus the configurations named above); thorough = the same rules evaluated again on the MIR of the nan_boxing and gc_stress builds (code under a feature cfg is otherwise invisible), plus the rule sets marked thorough-only.",
             "technique": m["technique"],
         }
         checks.append(c)
@@ -40,7 +40,7 @@ man = {
     ],
     "checks": checks,
     "not_applicable": na,
-    "notes": "Technique family: static analysis only. Every check re-extracts facts from /repo's current working tree (hash-keyed cache under .facts/), reports a named construct, and prints KNOWN-FINDING lines for defects listed in known_findings.json.",
+    "notes": "Technique family: static analysis only. Every check re-extracts facts from /repo's current working tree (hash-keyed cache under .facts/), reports a named construct, and prints KNOWN-FINDING lines for defects listed in known_findings.json. Before rules run the fact base is normalised: functions that do not exist on the reference tree (lyverif/pinned_fns.json) are inlined into their direct callers, so an extracted helper is judged in the context of the functions the rules were confirmed against (DESIGN.md 1.1, 7.1). Robustness corpora: seeded/ (117 breaking changes from independent sub-agents, all but one caught) and refactors/ (72 behaviour-preserving refactorings, none alarms); tools/seedregress.py and tools/refregress.py re-run them.",
 }
 json.dump(man, open(os.path.join(V, "MANIFEST.json"), "w"), indent=1)
 print("checks:", [c["property_id"] for c in checks], "na:", len(na))
